@@ -62,6 +62,9 @@ type E2Trace struct {
 	JCs     []E2JC   `json:"jcs"`
 	Ops     []E2Op   `json:"ops"`
 	Profile string   `json:"profile"`
+	// AutoRestart reboots the controller process before the next op whenever it
+	// has crashed (scripted workloads of the fault sweeps).
+	AutoRestart bool `json:"autoRestart,omitempty"`
 }
 
 func (j E2JC) parallelism() *execution.ParallelismSpec {
@@ -217,6 +220,13 @@ func (r *e2run) stepQueue(q *sim.Queue) {
 // apply executes one op. It must be total: ops that are not enabled are no-ops.
 func (r *e2run) apply(op E2Op) {
 	w := r.w
+	if !w.Alive && r.tr.AutoRestart && op.K != "restart" {
+		w.Kill()
+		if err := w.StartProcess(); err != nil {
+			panic(err)
+		}
+		r.label("restart")
+	}
 	switch op.K {
 	case "createJob": // A=jobconfig name ("" = independent), B=policy override, D=startAfter offset s (0 = none), N=job number
 		job := &execution.Job{ObjectMeta: metav1.ObjectMeta{Name: fmt.Sprintf("adhoc-%d", op.N), Namespace: "ns"}}
@@ -264,9 +274,12 @@ func (r *e2run) apply(op E2Op) {
 		case "other":
 			p.OwnerReferences = []metav1.OwnerReference{{APIVersion: "v1", Kind: "ReplicaSet", Name: "rs", UID: "rs-uid", Controller: &t}}
 		case "stale-job":
-			p.OwnerReferences = []metav1.OwnerReference{{APIVersion: "execution.furiko.io/v1alpha1", Kind: "Job", Name: strings.TrimSuffix(name, name[strings.LastIndex(name, "-"):]), UID: "some-older-job-uid", Controller: &t}}
+			p.OwnerReferences = []metav1.OwnerReference{{APIVersion: "execution.furiko.io/v1alpha1", Kind: "Job", Name: op.B2(), UID: "some-older-job-uid", Controller: &t}}
 		}
-		_, _ = w.UserCreate(sim.ResPods, p)
+		if _, err := w.UserCreate(sim.ResPods, p); err == nil && r.mon != nil {
+			r.mon.foreign[op.A] = op.B2()
+			r.mon.label("foreign-pod")
+		}
 	case "deliver": // A=resource, B=cache set, N=count
 		w.Deliver(op.B, sim.Res(op.A), op.N)
 	case "step": // A=queue name
@@ -304,7 +317,12 @@ func (r *e2run) apply(op E2Op) {
 		w.GC()
 	case "fault":
 		f := *op.F
+		if f.Name == "excluded" {
+			f.Name = ""
+			r.excluded++
+		}
 		w.API.Faults = append(w.API.Faults, &f)
+		r.label("fault:" + string(f.Kind))
 	case "clearFaults":
 		w.API.Faults = nil
 	case "crash": // arm a crash for the next controller step
@@ -346,6 +364,14 @@ func (r *e2run) settle() bool {
 	}
 	r.label("livelock")
 	return false
+}
+
+// B2 returns the job name a planted Pod is aimed at (carried in F.Name to keep the op flat).
+func (o E2Op) B2() string {
+	if o.F != nil {
+		return o.F.Name
+	}
+	return ""
 }
 
 func splitKey(k string) (string, string) {
@@ -534,6 +560,49 @@ func genE2Ops(t *rapid.T, tr *E2Trace, p e2Profile) {
 		}
 		if p.crashes && w.Alive {
 			add("restart", 1, func() E2Op { return E2Op{K: "restart"} })
+			add("crash", 1, func() E2Op {
+				return E2Op{K: "crash", C: &sim.CrashPlan{AtCall: rapid.IntRange(1, 4).Draw(t, "crashAt"), AfterApply: rapid.Bool().Draw(t, "crashAfter")}}
+			})
+		}
+		if p.foreignPods {
+			var targets []*execution.Job
+			for _, j := range liveJobs {
+				if !j.Status.Phase.IsTerminal() && j.Spec.KillTimestamp == nil {
+					targets = append(targets, j)
+				}
+			}
+			if len(targets) > 0 {
+				add("plantPod", 2, func() E2Op {
+					j := rapid.SampledFrom(targets).Draw(t, "plantjob")
+					hs := indexHashes(j)
+					h := rapid.SampledFrom(hs).Draw(t, "planthash")
+					n := 0
+					for _, tr := range j.Status.Tasks {
+						if strings.HasPrefix(tr.Name, j.Name+"-"+h+"-") {
+							n++
+						}
+					}
+					return E2Op{K: "plantPod", A: fmt.Sprintf("%s/%s-%s-%d", j.Namespace, j.Name, h, n),
+						B: rapid.SampledFrom([]string{"none", "other", "stale-job"}).Draw(t, "plantowner"), F: &sim.Fault{Name: j.Name}}
+				})
+			}
+		}
+		if p.faults && len(w.API.Faults) < 4 {
+			add("fault", 3, func() E2Op {
+				f := &sim.Fault{
+					Actor: rapid.SampledFrom([]string{"", "job", "job", "jobqueue", "jobconfig", "cron"}).Draw(t, "factor"),
+					Verb:  rapid.SampledFrom([]string{"", "create", "update", "updateStatus", "delete"}).Draw(t, "fverb"),
+					Nth:   rapid.IntRange(1, 3).Draw(t, "fnth"), Count: rapid.IntRange(1, 3).Draw(t, "fcount"),
+					Kind: rapid.SampledFrom([]sim.FaultKind{sim.FaultReject, sim.FaultTimeout, sim.FaultConflict, sim.FaultCommitTimeout}).Draw(t, "fkind"),
+				}
+				// Excluded by construction (known finding E2-start-commit-timeout): a start write that
+				// commits but is reported as failed. Counted by the run.
+				if f.Kind == sim.FaultCommitTimeout && (f.Actor == "" || f.Actor == "jobqueue") && (f.Verb == "" || f.Verb == "updateStatus") {
+					f.Actor = "job"
+					f.Name = "excluded"
+				}
+				return E2Op{K: "fault", F: f}
+			})
 		}
 		if !w.Alive {
 			cs = []cand{{1, func() E2Op { return E2Op{K: "restart"} }}}
